@@ -16,7 +16,7 @@ COVERED = {
                "timeout": "exception type (fake UDP sockets honour settimeout)"},
     "threading": {"local": "thread-local (each simulated process is a thread)", "Lock": "SimLock in cascade.shm.dataset"},
     "multiprocessing": {"get_context": "SimProcess", "shared_memory": "segment namespace fake", "shared_memory.SharedMemory": "segment namespace fake",
-                        "resource_tracker": "no-op", "resource_tracker.unregister": "no-op", "process": "type only", "process.BaseProcess": "type only",
+                        "resource_tracker": "no-op", "resource_tracker.unregister": "per-process registration set where a harness enables it (shmstore procs-exit), else no-op", "process": "type only", "process.BaseProcess": "type only",
                         "Process": "benchmarks launcher only (re-written in the harness)"},
     "subprocess": {"run": "fake (findmnt / uv never invoked with packages)", "Popen": "fake: records the command line", "CalledProcessError": "type"},
     "os": {"environ": "per-process env shim", "getenv": "per-process env shim", "environ.get": "per-process env shim", "getpid": "unused in simulated paths",
